@@ -23,7 +23,10 @@ Files == <<
   << Sig("4.7.0", "\""), Sig("4.7.0", "\" # trailing"), Setup("  \"id:1,", "470", ",pass\""), Setup("", "470", "") >>,
   \* markers inside commented-out directives (crs-setup.conf.example is mostly such blocks)
   << Hdr("CRS", "4.3.0"), Txt("#SecAction \\"), Txt("#    \"id:900990,\\"), Ver("#    ", "4.3.0", "',\\"),
-     Setup("#    ", "430", "\""), Ver("# ", "4.3.0", "'\""), Cpy("2024", "CRS") >>
+     Setup("#    ", "430", "\""), Ver("# ", "4.3.0", "'\""), Cpy("2024", "CRS") >>,
+  \* files that consist of ONE line (index 6 with, index 7 without a final newline)
+  << Sig("4.0.0", "\"") >>,
+  << Sig("4.0.0", "\"") >>
 >>
 
 Init == /\ fileIx \in 1..Len(Files) /\ cur = Files[fileIx] /\ hist = <<>> /\ outs = <<>>
